@@ -96,6 +96,7 @@ def run(case):
         k0 = len(o["sol"][rkey])
     if base_cls in ("kLeastAbsErrors", "kLeastAbsErrorsCycles"):
         k0 = max(1, min(width, 2))
+    sib_weights = list(o["sol"]["weights"]) if base_cls == "kFlowDecomp" else None
 
     def cfg(name, kw_over=None, inst_over=None, ignored=(), starts=(), ends=(), allow_empty=False, origin="edge"):
         return {"name": name, "kw": kw_over or {}, "inst": inst_over, "ignored": ignored, "starts": starts, "ends": ends, "allow_empty": allow_empty, "origin": origin}
@@ -108,6 +109,11 @@ def run(case):
         cfgs.append(cfg("float", {"weight_type": "float"}))
         if base_cls in sweep.ERRM:
             cfgs.append(cfg("perturbed", inst_over=sweep.perturbed(inst)))
+    if sib_weights is not None and not case.get("float_data"):
+        # given weights: the superset is LONGER than k (one model layer per entry); still at most k non-empty paths may come back
+        pool = sorted(sib_weights) + [1, max(sib_weights) + 2]
+        for kk in sorted({max(1, k0 - 1), k0}):
+            cfgs.append(cfg(f"weights_superset,k={kk}", {"k": kk, "solution_weights_superset": pool}, allow_empty=True))
     nt_inst = sweep.node_twin(inst)
     okey = "cover_type" if cover else "flow_attr_origin"
     cfgs.append(cfg("node", {okey: "node"}, inst_over=nt_inst, origin="node"))
